@@ -69,8 +69,16 @@ func (c *Condition) UnmarshalJSON(b []byte) error {
 	if len(v) != 3 {
 		return fmt.Errorf("expected a 3 element json array. there are %d elements", len(v))
 	}
-	c.Column = v[0].(string)
-	function := ConditionFunction(v[1].(string))
+	column, ok := v[0].(string)
+	if !ok {
+		return fmt.Errorf("expected column name %v to be a valid string", v[0])
+	}
+	functionString, ok := v[1].(string)
+	if !ok {
+		return fmt.Errorf("expected function %v to be a valid string", v[1])
+	}
+	c.Column = column
+	function := ConditionFunction(functionString)
 	switch function {
 	case ConditionEqual,
 		ConditionNotEqual,
